@@ -19,7 +19,9 @@ CHECKS = {
              "(Coherent, FlagIffDirty, FullUpdateClean, TargetsClean, EvalOnlyIfDirty). Random real liesel Models (all "
              "node kinds, Vars with proxies, Dist/TransientDist with `at`) in a symbolic value regime (node functions "
              "build term strings: exact comparison) are driven through random histories and every post-state "
-             "(values, outdated flags, evaluated nodes) is validated; TLC-simulated behaviours of the spec are replayed "
+             "(values, outdated flags, evaluated nodes) is validated - the histories also contain set_seed, rebuilds, values a "
+             "node function refuses (aborted sweeps), save_model/load_model round trips, the low-level node API "
+             "(flag_outdated, clear_state, single-node update under its precondition); TLC-simulated behaviours of the spec are replayed "
              "on real models. Exception paths are part of the spec (a node function that raises aborts the sweep where it "
              "stands; poison value in the symbolic regime; the model's real sweep order is logged) as is pop / assign "
              "outside any model / rebuild.",
@@ -77,7 +79,8 @@ CHECKS = {
              "variable whose feasible interval must stay non-empty, keys whose draw is exactly 0.0 are searched for "
              "at check time and included; log-densities of magnitude up to 3e7 with exactly representable differences are "
              "part of the grid; the same rule is validated on the transition infos of RW / MH / IWLS kernels running in "
-             "two-kernel sequences.",
+             "two-kernel sequences, and on mh_step through the Dict / Dataclass / Liesel interfaces (several steps on the "
+             "same state object with different blocks, densities from a closed form, states compared field by field).",
         note="Assumes the uniform draw is in [0,1) and a function of the key only. " + TRUST,
         technique="TLA+ spec (MHStep) with IEEE operator override + TLC enumeration + trace validation with a hidden variable",
         ref="DESIGN.md section 5, C05",
@@ -236,7 +239,8 @@ CHECKS = {
              "SkipUntouched, Coherent; the variant that reads parameters from the cache is refuted. Random hierarchies of "
              "real liesel Vars are driven with fake distributions whose draw is an exact integer code of the parameter "
              "values they saw and of their seed split: values, flags, shapes, ancestral order, distinct seed splits and "
-             "skipped variables are validated after every operation.",
+             "skipped variables are validated after every operation; real TFP / liesel distributions are used for the shapes "
+             "of the draws and for the support (P-spline coefficients have no component in the null space of the penalty).",
         note="Distribution objects are fakes with TFP's shape attributes (the property is about wiring, not about TFP's samplers). " + TRUST,
         technique="TLA+ spec (LieselGraph.Simulate) + TLC + trace validation of real models with integer-coded draws",
         ref="DESIGN.md section 5, C17",
@@ -247,7 +251,9 @@ CHECKS = {
              "phase counts from the property text; TLC checks they agree for every error table over {0,1,2} for small "
              "(K,C,T) and every phase split. Real engine runs with scripted-error probe kernels are validated: "
              "get_error_log (both modes), Summary.error_summary with the kernel's messages, error_df (per chain and "
-             "merged), sample_info vs stored samples, pickle and ArviZ round trips (digests).",
+             "merged), sample_info vs stored samples, pickle and ArviZ round trips (digests); runs of built-in kernels "
+             "that report errors of their own: every stored code is documented in the kernel's book, the summary equals "
+             "the direct counts.",
         note="The 'relative' column of error_df is not checked (not part of the property). " + TRUST,
         technique="TLA+ spec (Results) + TLC over all small error tables + trace validation of real scripted-error runs",
         ref="DESIGN.md section 5, C19",
